@@ -6,7 +6,11 @@
    nat voter count.  strings.Contains and net.SplitHostPort are Section variables of the generated
    file, instantiated with the model's has_sub and split_host_port_ok. *)
 From Coq Require Import List String Bool ZArith Lia ZifyBool ZifyNat.
-From RQ Require Import Lib.AList Lib.GoLib Lib.GenTac Model.C33 Gen.RaftConfig.
+From RQ Require Import Lib.AList.
+From RQ Require Import Lib.GoLib.
+From RQ Require Import Lib.GenTac.
+From RQ Require Import Model.C33.
+From RQ Require Import Gen.RaftConfig.
 Import ListNotations.
 Local Open Scope string_scope.
 
@@ -42,7 +46,7 @@ Section Check.
 
   Lemma gen_checkRaftConfiguration_eq : forall l, isSome (gen_check l) = negb (check_configuration l).
   Proof.
-    intros l. unfold gen_check, checkRaftConfiguration, check_configuration, gconf.
+    intros l. unfold gen_check, checkRaftConfiguration, check_configuration, gconf. aux.
     cbn [raft_Configuration_Servers].
     lazymatch goal with |- isSome (?F ?a0 ?b0 ?c0 ?d0) = _ => pose (LOOP := F) end.
     enough (H : forall l voters addrs ids,
